@@ -216,6 +216,9 @@ POLYMORPHIC = {
     ("degree", "degree", "hg"): ALL_CONTAINERS,  # C08 "degrees also for Directed, Temporal and Multiplex"
     ("degree", "degree_sequence", "hg"): ALL_CONTAINERS,
     ("degree", "degree_distribution", "hg"): union(Obj("Hypergraph"), Obj("DirectedHypergraph"), Obj("TemporalHypergraph")),
+    # line graphs: the threshold `s` bounds an intersection SIZE (a number of shared nodes) from below  [docstring]
+    ("projections", "line_graph", "s"): SIZE,
+    ("projections", "directed_line_graph", "s"): SIZE,
 }
 
 # assumption A1 (DESIGN 2.B): node labels are not tuples; `isinstance(<NODE>, tuple)` folds to False.
